@@ -44,6 +44,7 @@ type Outcome struct {
 	Model   map[string]string `json:"model,omitempty"`
 	Path    int               `json:"path"`
 	Harness string            `json:"harness"`
+	HasModel bool             `json:"has_model,omitempty"`
 	Nondet  bool              `json:"nondet,omitempty"` // the path depends on engine-internal choices (select, scheduling)
 }
 
@@ -128,6 +129,7 @@ type Interp struct {
 	curFn      *ssa.Function
 	harnessPkg *ssa.Package
 	smallLen   int
+	schedLog   []string
 	mergeGuard *Term
 	noMerge    bool
 	skolemSeq  bool
@@ -290,7 +292,10 @@ func (in *Interp) addOutcome(kind, id, msg string, model map[string]string) {
 		return
 	}
 	in.perID[mk] = 1
-	in.res.Outcomes = append(in.res.Outcomes, &Outcome{Kind: kind, ID: id, Msg: msg, Known: in.knownTag, Model: model, Path: in.res.Paths, Harness: in.res.Harness, Nondet: in.intNondet > 0 || len(in.gs) > 1})
+	if in.concurrent {
+		msg += " | schedule: " + strings.Join(in.schedLog, " ")
+	}
+	in.res.Outcomes = append(in.res.Outcomes, &Outcome{Kind: kind, ID: id, Msg: msg, Known: in.knownTag, Model: model, Path: in.res.Paths, Harness: in.res.Harness, HasModel: model != nil, Nondet: in.intNondet > 0 || len(in.gs) > 1})
 }
 
 // assertHolds checks that cond holds on this path; otherwise records a violation with a model.
@@ -416,6 +421,7 @@ func (in *Interp) Explore(fn *ssa.Function) {
 		in.pendingEnd = nil
 		in.callDepth = 0
 		in.smallLen = 4
+		in.schedLog = nil
 		in.mergeGuard = nil
 		in.ignorePanics = false
 		in.seqCap = 64
